@@ -42,7 +42,7 @@ func newSackDriver(params Params, localAddr netip.Addr, sink packets.Sink, sourc
 		source:    source,
 		buffer:    make([]byte, 1024),
 		parser:    packets.NewFrameParser(),
-		sendTimes: make([]time.Time, params.ParallelParams.MaxTTL+1),
+		sendTimes: make([]time.Time, int(params.ParallelParams.MaxTTL)+1),
 		localAddr: localAddr,
 		localPort: 0, // to be set by ReadHandshake()
 		params:    params,
